@@ -160,11 +160,14 @@ let handle kind c =
     let k = next_int c in
     let t = ref now0 in
     let secs = ref 0 in
+    let n_setmode = ref 0 in
     let evs = List.init k (fun _ ->
         let delta = next_z c in
         let asof = read_asof c in
+        let setmode = next_bool c in
         let launched = next_bool c in
         let created = next_bool c in
+        if setmode then incr n_setmode;
         t := Z.add !t delta;
         secs := !secs + int_of_z delta / 1000000000;
         (!t, asof, launched, created, !secs)) in
@@ -173,8 +176,8 @@ let handle kind c =
     let got = List.map (fun (_, _, l, _, _) -> l) evs in
     let show l = String.concat "," (List.map string_of_bool l) in
     let describe () =
-      Printf.sprintf "token=%s starts=[%s]"
-        (match tok with None -> "absent" | Some m -> "age " ^ tok_of_z (Z.opp m) ^ "ns")
+      Printf.sprintf "token=%s mode-file-rewritten-between-starts=%d starts=[%s]"
+        (match tok with None -> "absent" | Some m -> "age " ^ tok_of_z (Z.opp m) ^ "ns") !n_setmode
         (String.concat "; " (List.map (fun (_, a, l, cr, sec) ->
              Printf.sprintf "at +%ss UploadStartTime=%s uploading-sidecar=%b token-recreated=%b"
                (string_of_int sec) (show_asof a) l cr) evs)) in
